@@ -192,7 +192,37 @@ func pointWithX1() ref.Pt {
 
 // traceMultiply runs Multiply(k) on a fresh copy of the point with the recorder on.
 func traceMultiply(rec *recorder, p point, k *big.Int, full bool) traceSig {
-	e, s := p.mk(), newScalar(k)
+	return traceMultiplyWith(rec, p, func() *secp256k1.Scalar { return newScalar(k) }, full)
+}
+
+// scalarWithPast builds the scalar k as an object with a history: it was 1 (the value of the documented shortcut),
+// then a REJECTED decode of n+k overwrote its limbs with k - what the pinned Decode does before it returns "scalar too
+// big". Whatever the object remembers of its earlier value must not steer the ladder. nil when the tree's rejected
+// decode does not leave exactly k in the limbs (then there is no such object to speak of).
+func scalarWithPast(k *big.Int, viaHex bool) *secp256k1.Scalar {
+	s := secp256k1.NewScalar().One()
+	_ = s.IsOne()
+	_ = s.Encode()
+	_ = s.Bits()
+
+	big := ref.Bytes32(new(big.Int).Add(ref.N, k))
+
+	var err error
+	if viaHex {
+		err = s.DecodeHex(fmt.Sprintf("%x", big))
+	} else {
+		err = s.Decode(big)
+	}
+
+	if err == nil || [4]uint64(s.S) != ref.Mont(k, ref.N) {
+		return nil
+	}
+
+	return s
+}
+
+func traceMultiplyWith(rec *recorder, p point, mkScalar func() *secp256k1.Scalar, full bool) traceSig {
+	e, s := p.mk(), mkScalar()
 
 	rec.reset(full)
 
@@ -216,7 +246,7 @@ func traceMultiply(rec *recorder, p point, k *big.Int, full bool) traceSig {
 		// execution with the default schedule (no preemption; a started goroutine runs when its parent waits for it
 		// or ends), which is deterministic - the property is then judged on that one schedule.
 		scheduledTraces = true
-		e, s = p.mk(), newScalar(k)
+		e, s = p.mk(), mkScalar()
 		rec.reset(full)
 	}
 
@@ -452,6 +482,27 @@ func C19(r *ev.Report) {
 			}
 		}
 
+		// scalars with a past (shard 0): the same values as objects that were 1 before a rejected decode changed them
+		if shardI == 0 {
+			for _, k := range []*big.Int{big.NewInt(5), new(big.Int).Lsh(big.NewInt(1), 100)} { // n+k must fit 32 bytes
+				for _, viaHex := range []bool{false, true} {
+					k, viaHex := k, viaHex
+					if scalarWithPast(k, viaHex) == nil {
+						continue
+					}
+
+					r.Evals.Add(1)
+					r.Traces.Add(1)
+
+					if got := traceMultiplyWith(rec, p, func() *secp256k1.Scalar { return scalarWithPast(k, viaHex) }, false); got != ref0 && traceUndecidable == "" {
+						r.Violation("Multiply/field-operation-schedule-depends-on-scalar/scalar-with-a-past",
+							fmt.Sprintf("point %s, k=%x held by a scalar that was 1 before a rejected decode of n+k left k in its limbs: %d field operations, %d for a fresh scalar", p.name, k, got.fieldN, ref0.fieldN),
+							Case{"op": "trace-past", "point": p.name, "k": k.Text(16), "hex": fmt.Sprint(viaHex)})
+					}
+				}
+			}
+		}
+
 		// the shortcut
 		one := traceMultiply(rec, p, big.NewInt(1), false)
 		r.Bound("trace_length_k=1["+p.name+"]", one.fieldN)
@@ -469,6 +520,19 @@ func ReplayC19(c Case) (bool, string) {
 	k, _ := new(big.Int).SetString(c["k"], 16)
 
 	for _, p := range points() {
+		if p.name == c["point"] && c["op"] == "trace-past" {
+			ref0 := traceMultiply(rec, p, big.NewInt(0), false)
+			viaHex := c["hex"] == "true"
+
+			if scalarWithPast(k, viaHex) == nil {
+				return true, "the tree's rejected decode does not leave k in the limbs: no such object"
+			}
+
+			got := traceMultiplyWith(rec, p, func() *secp256k1.Scalar { return scalarWithPast(k, viaHex) }, false)
+
+			return got == ref0, fmt.Sprintf("scalar with a past: %d field operations, %d for k = 0", got.fieldN, ref0.fieldN)
+		}
+
 		if p.name == c["point"] {
 			key, detail := c19Case(rec, p, k)
 			return key == "", key + " " + detail
